@@ -381,6 +381,10 @@ Done(h, op, a, b, d, ret, top, base) ==     \* an atomic call completes
   Commit(h, LR(op, a, b, d, ret), [ObFor(top, op, a, b) EXCEPT !.ret = ret],
          [ctl EXCEPT !.stack = base])
 
+\* the value of `a` can be named: it is intact, or we are inside its own destructor
+CanOpen(a, top) == \/ Intact(a) /\ ob.nd[a] = 0
+                   \/ ~top /\ Stack # <<>> /\ Top.pc = "value" /\ Top.o = a
+
 OpNew(d, top, base) ==
   /\ \E o \in Obj :
        /\ ~led.made[o] /\ \A p \in Obj : p < o => led.made[p]
@@ -392,10 +396,6 @@ OpNew(d, top, base) ==
 OpCloneRoot(o, top, base) ==
   /\ led.rootS[o] > 0 /\ Handles(o) < Caps.strong
   /\ DoClone(o, "CloneRoot", o, 0, ObFor(top, "CloneRoot", o, 0), base)
-
-\* the value of `a` can be named: it is intact, or we are inside its own destructor
-CanOpen(a, top) == \/ Intact(a) /\ ob.nd[a] = 0
-                   \/ ~top /\ Stack # <<>> /\ Top.pc = "value" /\ Top.o = a
 
 OpCloneStored(a, o, top, base) ==
   /\ CanOpen(a, top) /\ led.valS[a][o] > 0 /\ Handles(o) < Caps.strong
@@ -412,8 +412,9 @@ OpStore(a, o, top, base) ==        \* move a root handle of o into a's value: no
   /\ Done(heap, "Store", a, o, NoScript, "ok", top, base)
 
 OpTake(a, o, top, base) ==         \* move a handle out of a's value: no library call
-  /\ Intact(a) /\ ob.nd[a] = 0 /\ led.valS[a][o] > 0
+  /\ CanOpen(a, top) /\ led.valS[a][o] > 0
   /\ Caps.elide \/ led.rec[a][o] < led.valS[a][o]
+  /\ top \/ (Intact(o) /\ ob.nd[o] = 0)      \* a destructor may keep handles to objects that are not dying
   /\ Done(heap, "Take", a, o, NoScript, "ok", top, base)
 
 OpDropStored(a, o, top, base) ==
@@ -862,7 +863,7 @@ ScriptBase == SetTop([Top EXCEPT !.ph = "fields"])
 \* a script names its call like a trace line does: [op, x, y]; calls on stored handles
 \* act on the value being destroyed
 ScriptCall(sc) ==
-  IF sc.op \in {"UpgradeStored", "CloneStored", "DropStored"}
+  IF sc.op \in {"UpgradeStored", "CloneStored", "DropStored", "Take"}
   THEN [op |-> sc.op, a |-> Top.o, b |-> sc.x]
   ELSE [op |-> IF sc.op = "UpgradeWeak" THEN "Upgrade" ELSE sc.op, a |-> sc.x, b |-> sc.y]
 ScriptOp(sc) ==
